@@ -1,3 +1,4 @@
+import PGT.Proofs.ConfigEquiv
 import PGT.Model.Config
 /-
 C16 – Command-line and YAML configuration are equivalent channels.
@@ -76,5 +77,118 @@ example : getSliceParam [("types", "A+B+C")] "types" ["Y"] = ["A", "B", "C"] := 
 example : getSliceParam [("types", "  ")] "types" ["Y"] = ["Y"] := by decide
 example : getBoolParam [("sort", "TRUE")] "sort" false = true := by decide
 example : getBoolParam [("sort", "maybe")] "sort" true = true := by decide
+
+-- ------------------------------------------------------------------------------------------------------
+-- the two channels, for every row of the regenerated table (proofs: `Proofs/ConfigEquiv.lean`, for any table that
+-- passes the decidable check `TableOK`: distinct Config fields, distinct keys, every row names a field its accessor writes)
+section
+open PGT.ConfigEquiv
+
+/-- After `readFromCLI`, the field of every row of the regenerated table holds exactly what the row's accessor
+returns on (command line, key, YAML value); what no row of that kind names is the input's. -/
+theorem C16_read_from_cli (cli : List (String × String)) (c : Config) :
+    (∀ f k, (f, k, "slice") ∈ Generated.cliTable →
+      (readFromCLI cli c).getSlice f = getSliceParam cli k (c.getSlice f)) ∧
+    (∀ f k, (f, k, "string") ∈ Generated.cliTable →
+      (readFromCLI cli c).getString f = getStringParam cli k (c.getString f)) ∧
+    (∀ f k, (f, k, "bool") ∈ Generated.cliTable →
+      (readFromCLI cli c).getBool f = getBoolParam cli k (c.getBool f)) ∧
+    (∀ g, (∀ k, (g, k, "slice") ∉ Generated.cliTable) → (readFromCLI cli c).getSlice g = c.getSlice g) ∧
+    (∀ g, (∀ k, (g, k, "string") ∉ Generated.cliTable) → (readFromCLI cli c).getString g = c.getString g) ∧
+    (∀ g, (∀ k, (g, k, "bool") ∉ Generated.cliTable) → (readFromCLI cli c).getBool g = c.getBool g) ∧
+    rest (readFromCLI cli c) = rest c := by
+  intros; apply readFromCLI_field <;> assumption
+
+/-- accessor level: a non-blank command-line value hides the default; a blank or absent one returns it.
+For booleans "non-blank" is not enough: a value `strconv.ParseBool` rejects is logged and the default is kept. -/
+theorem C16_accessor_precedence (cli : List (String × String)) (k : String) :
+    (cliValue cli k ≠ "" → ∀ d d', getSliceParam cli k d = getSliceParam cli k d') ∧
+    (cliValue cli k ≠ "" → ∀ d d', getStringParam cli k d = getStringParam cli k d') ∧
+    ((parseBool (asciiLower (cliValue cli k))).isSome → ∀ d d', getBoolParam cli k d = getBoolParam cli k d') ∧
+    (cliValue cli k = "" → ∀ d, getSliceParam cli k d = d) ∧
+    (cliValue cli k = "" → ∀ d, getStringParam cli k d = d) ∧
+    (parseBool (asciiLower (cliValue cli k)) = none → ∀ d, getBoolParam cli k d = d) ∧
+    (cliValue cli k = "" → parseBool (asciiLower (cliValue cli k)) = none) := by
+  intros; apply accessor_precedence <;> assumption
+
+/-- The command line wins: with a non-blank value for the key of a row, the whole result of `readFromCLI` (hence of
+`readConfig`) is independent of the YAML value of that row's field. -/
+theorem C16_cli_wins {f k : String} (cli : List (String × String)) (y : Config) :
+    ((f, k, "slice") ∈ Generated.cliTable → cliValue cli k ≠ "" →
+      ∀ d d', readFromCLI cli (y.setSlice f d) = readFromCLI cli (y.setSlice f d')) ∧
+    ((f, k, "string") ∈ Generated.cliTable → cliValue cli k ≠ "" →
+      ∀ d d', readFromCLI cli (y.setString f d) = readFromCLI cli (y.setString f d')) ∧
+    ((f, k, "bool") ∈ Generated.cliTable → (parseBool (asciiLower (cliValue cli k))).isSome →
+      ∀ d d', readFromCLI cli (y.setBool f d) = readFromCLI cli (y.setBool f d')) := by
+  intros; apply cli_wins <;> assumption
+
+/-- Without a (non-blank, for booleans: parsable) command-line value the YAML value stays. -/
+theorem C16_yaml_stays {f k : String} (cli : List (String × String)) (y : Config) :
+    ((f, k, "slice") ∈ Generated.cliTable → cliValue cli k = "" → (readFromCLI cli y).getSlice f = y.getSlice f) ∧
+    ((f, k, "string") ∈ Generated.cliTable → cliValue cli k = "" → (readFromCLI cli y).getString f = y.getString f) ∧
+    ((f, k, "bool") ∈ Generated.cliTable → parseBool (asciiLower (cliValue cli k)) = none →
+      (readFromCLI cli y).getBool f = y.getBool f) := by
+  intros; apply yaml_stays <;> assumption
+
+/-- CHANNEL EQUIVALENCE, string options. Side conditions: the command line does not already give a non-blank value for
+the key (else that value wins on the left-hand side too), and `v` is expressible. -/
+theorem C16_channel_string {f k : String} (hm : (f, k, "string") ∈ Generated.cliTable) {cli : List (String × String)}
+    (hcli : cliValue cli k = "") {v : String} (hv : Expressible v) (y : Config) (d : String) :
+    readConfig .ok (y.setString f v) cli = readConfig .ok (y.setString f d) (cli ++ [(k, v)]) := by
+  intros; apply channel_string <;> assumption
+
+/-- CHANNEL EQUIVALENCE, boolean options (no side condition on `b`). -/
+theorem C16_channel_bool {f k : String} (hm : (f, k, "bool") ∈ Generated.cliTable) {cli : List (String × String)}
+    (hcli : cliValue cli k = "") (b : Bool) (y : Config) (d : Bool) :
+    readConfig .ok (y.setBool f b) cli = readConfig .ok (y.setBool f d) (cli ++ [(k, renderBool b)]) := by
+  intros; apply channel_bool <;> assumption
+
+/-- CHANNEL EQUIVALENCE, list options, `+` as separator. Side conditions: no element contains `+`, and the joined
+string is expressible (not empty - so `l` is neither `[]` nor `[""]` - and neither starts nor ends with a blank). -/
+theorem C16_channel_slice {f k : String} (hm : (f, k, "slice") ∈ Generated.cliTable) {cli : List (String × String)}
+    (hcli : cliValue cli k = "") {l : List String} (hv : Expressible (renderSlice l))
+    (hplus : ∀ x ∈ l, '+' ∉ x.toList) (y : Config) (d : List String) :
+    readConfig .ok (y.setSlice f l) cli = readConfig .ok (y.setSlice f d) (cli ++ [(k, renderSlice l)]) := by
+  intros; apply channel_slice <;> assumption
+
+/-- a sufficient condition on the elements: blank-free elements (e.g. type or field names), `l` neither `[]` nor `[""]` -/
+theorem C16_expressible_slice {l : List String} (hne : l ≠ []) (hne' : l ≠ [""])
+    (hsp : ∀ x ∈ l, ∀ ch ∈ x.toList, isGoSpace ch = false) : Expressible (renderSlice l) := by
+  intros; apply expressible_renderSlice <;> assumption
+
+/-- The nine dual options, in record notation: moving the option from the YAML record to the command line (appended to
+a command line that gives no value for the key), with ANY value `d` left in the YAML field, gives the same
+`readConfig` result. -/
+theorem C16_channel_equiv_table (cli : List (String × String)) (y : Config) :
+    (∀ l d, cliValue cli "types" = "" → SliceExpressible l →
+      readConfig .ok { y with types := l } cli =
+        readConfig .ok { y with types := d } (cli ++ [("types", renderSlice l)])) ∧
+    (∀ l d, cliValue cli "exclude_fields" = "" → SliceExpressible l →
+      readConfig .ok { y with excludeFields := l } cli =
+        readConfig .ok { y with excludeFields := d } (cli ++ [("exclude_fields", renderSlice l)])) ∧
+    (∀ l d, cliValue cli "computed_fields" = "" → SliceExpressible l →
+      readConfig .ok { y with computedFields := l } cli =
+        readConfig .ok { y with computedFields := d } (cli ++ [("computed_fields", renderSlice l)])) ∧
+    (∀ l d, cliValue cli "required_fields" = "" → SliceExpressible l →
+      readConfig .ok { y with requiredFields := l } cli =
+        readConfig .ok { y with requiredFields := d } (cli ++ [("required_fields", renderSlice l)])) ∧
+    (∀ l d, cliValue cli "sensitive" = "" → SliceExpressible l →
+      readConfig .ok { y with sensitiveFields := l } cli =
+        readConfig .ok { y with sensitiveFields := d } (cli ++ [("sensitive", renderSlice l)])) ∧
+    (∀ v d, cliValue cli "default_package_name" = "" → Expressible v →
+      readConfig .ok { y with defaultPackageName := v } cli =
+        readConfig .ok { y with defaultPackageName := d } (cli ++ [("default_package_name", v)])) ∧
+    (∀ v d, cliValue cli "target_package_name" = "" → Expressible v →
+      readConfig .ok { y with targetPackageName := v } cli =
+        readConfig .ok { y with targetPackageName := d } (cli ++ [("target_package_name", v)])) ∧
+    (∀ v d, cliValue cli "custom_duration" = "" → Expressible v →
+      readConfig .ok { y with durationCustomType := v } cli =
+        readConfig .ok { y with durationCustomType := d } (cli ++ [("custom_duration", v)])) ∧
+    (∀ b d, cliValue cli "sort" = "" →
+      readConfig .ok { y with sort := b } cli =
+        readConfig .ok { y with sort := d } (cli ++ [("sort", renderBool b)])) := by
+  intros; apply channel_equiv_table <;> assumption
+
+end
 
 end PGT.Props.C16
